@@ -76,6 +76,15 @@ def match_known(prop, viol, known):
     return None
 
 
+AFTER_FAULT_PREFIX = "after a caught callback panic: "
+
+
+def relevant(prop, v):
+    """A violation counts for the property being checked if it carries that property, is an unexpected panic /
+    crash, or (for C07) happened after a caught callback panic."""
+    return v["property"] in (prop, "ANY") or (prop == "C07" and v.get("message", "").startswith(AFTER_FAULT_PREFIX))
+
+
 def run_bin(binpath, args, timeout):
     t0 = time.time()
     try:
@@ -149,7 +158,7 @@ def explore_run(prop, cfg, binpath, args, out, known, tier, seed, sub="explore")
         seen_sig = set()
         for f in r.get("found", []):
             vs = f["violations"]
-            rel = [v for v in vs if v["property"] in (prop, "ANY")]
+            rel = [v for v in vs if relevant(prop, v)]
             if any(v["property"] == "MACHINERY" for v in vs):
                 out.machinery.append("%s: %s" % (f["history_pretty"], vs))
                 continue
@@ -164,7 +173,7 @@ def explore_run(prop, cfg, binpath, args, out, known, tier, seed, sub="explore")
             ok = 0
             for _ in range(2):
                 rrc, rres, rerr = replay(binpath, lens_args, f["history"], sub=sub)
-                if rrc == 1 and (sub != "explore" or (rres and any(x["property"] in (prop, "ANY") for x in rres["violations"]))):
+                if rrc == 1 and (sub != "explore" or (rres and any(relevant(prop, x) for x in rres["violations"]))):
                     ok += 1
                 elif rrc not in (0, 1):
                     ok += 1 if rrc == 70 else 0
